@@ -9,6 +9,8 @@ TRUSTED_BASE = [
     "success iff the trajectory left [left,right] strictly before the path was full -- the stop rule itself (EngineBase.add_to_path) is proved against its body; the in-repo loops are C12's subject",
     "A-EXT engine.modify_velocities / calculate_order / dump_phasepoint only touch the System they are given",
     "A-EXT rgen.random() in [0,1), rgen.integers(lo,hi) in [lo,hi)",
+    "select_shoot is verified with the four moves replaced by summaries restating clauses proved for them (accept iff ACC, well-formed new paths, nothing older written); run_md with a summary of select_shoot restating ITS proved clauses, "
+    "log_mdlogs (reads log files) as a no-op and calc_cv_vector by its result identity (its value is C10's subject)",
     "callee contracts used as summaries: paste_paths, Path.__iadd__, Path.copy, Path.reverse (all proved under C15), compute_weight / wirefence_weight_and_pick (proved under C10)",
     "A-SOLVER: z3 5.1 / cvc5 1.0.3 unsat answers",
 ]
@@ -27,6 +29,7 @@ WF_FUNCS = [
     ("extender", "wire fencing: an extended segment that is accepted starts/ends outside, stays inside, is shorter than maxlength and contains the source segment", 30),
     ("subt_acceptance", "wire fencing: success => allowed start side; result is the path or its time reversal; input frames untouched", 10),
     ("wire_fencing", "wire fencing: ACC => starts left, ends outside, interior inside, within the length limit, reaches lambda_i; old frames untouched", 40),
+    ("select_shoot", "dispatch: the configured move runs once, on the ensemble's own settings / old path / start condition, with the engine instance(s) pinned for the job (prepared, cleaned, job stream installed), and its verdict is returned", 2),
     ("run_md", "run_md installs the trial (with its weight vector) exactly when the status is ACC; a rejected move leaves the old path object, its frames and weights in place", 2),
 ]
 
@@ -115,6 +118,13 @@ def search(obname, limit=20000):
     if fn == "calc_cv_vector":
         from props import C10
         return C10.search(obname)
+    if fn == "select_shoot":
+        from vf.native_moves import run_select
+        for kind in ("sh", "wf", "swap", "quantis"):
+            bad, info = run_select({"kind": kind})
+            if bad:
+                return {"witness": {"kind": kind, "function": "select_shoot"}, "native": {"reproduced": True, "violations": bad, "info": info, "detail": bad[:3]}}
+        return None
     if fn == "run_md":
         from vf.native_moves import run_runmd
         for n in (1, 2):
@@ -140,6 +150,8 @@ def search(obname, limit=20000):
 
 
 def relevant(obname, found):
+    if obname.split("/")[0] == "select_shoot":
+        return True  # one oracle, restating the dispatch clauses together
     if obname.split("/")[0] == "calc_cv_vector":
         return True  # C10's native oracle restates exactly the weight-vector clause
     from vf.native_moves import relevant as rel
@@ -147,6 +159,9 @@ def relevant(obname, found):
 
 
 def replay(obname, w):
+    if obname.split("/")[0] == "select_shoot":
+        hit = search(obname)
+        return hit["native"] if hit else {"reproduced": False, "detail": "dispatch behaves as specified natively for all four kinds"}
     if obname.split("/")[0] == "run_md" and (w or {}).get("function") != "run_md":
         # the solver's model fixes only the status code; the native oracle enumerates the statuses
         hit = search(obname)
